@@ -115,7 +115,10 @@ where
     v.insert("funding_amount_per_size_adjustment".into(), m.funding_amount_per_size_adjustment().to_string());
     v.insert("funding_fee_params".into(), res(m.funding_fee_params()));
     v.insert("position_params".into(), res(m.position_params()));
-    v.insert("order_fee_params".into(), res(m.order_fee_params()));
+    // The program applies the order fee discount where the order is executed (RevertibleMarket wraps the
+    // params with the user's factor, default 0); the SDK model always wraps with its own factor (default 0).
+    // FeeParams::discount_factor() reads None as zero, so "None" and "Some(0)" are the same parameters.
+    v.insert("order_fee_params".into(), res(m.order_fee_params()).replace("discount_factor: None", "discount_factor: Some(0)"));
     v.insert("liquidation_fee_params".into(), res(m.liquidation_fee_params()));
 }
 
@@ -128,16 +131,16 @@ fn to_prog(m: &sdk::Market) -> Box<prog::Market> {
 const FLAG_NAMES: [&str; 6] = ["enabled", "pure", "adl_long", "adl_short", "gt", "closed"];
 
 fn prog_extra(p: &prog::Market, v: &mut View) {
-    use gmsol_store::states::market::MarketFlag;
+    use gmsol_utils::market::MarketFlag;
     v.insert("flag.enabled".into(), p.flag(MarketFlag::Enabled).to_string());
     v.insert("flag.pure".into(), p.is_pure().to_string());
     v.insert("flag.adl_long".into(), p.is_adl_enabled(true).to_string());
     v.insert("flag.adl_short".into(), p.is_adl_enabled(false).to_string());
     v.insert("flag.gt".into(), p.is_gt_minting_enabled().to_string());
     v.insert("flag.closed".into(), p.is_closed().to_string());
-    v.insert("balance.long".into(), p.long_token_balance_raw().to_string());
-    v.insert("balance.short".into(), p.short_token_balance_raw().to_string());
-    v.insert("trade_count".into(), p.trade_count().to_string());
+    v.insert("balance.long".into(), p.state().long_token_balance_raw().to_string());
+    v.insert("balance.short".into(), p.state().short_token_balance_raw().to_string());
+    v.insert("trade_count".into(), p.state().trade_count().to_string());
     v.insert("max_pool_value_for_deposit.long".into(), res(p.max_pool_value_for_deposit(true)));
     v.insert("max_pool_value_for_deposit.short".into(), res(p.max_pool_value_for_deposit(false)));
     let meta = p.meta();
@@ -154,9 +157,8 @@ fn sdk_extra(model: &MarketModel, v: &mut View) {
         let val = if *n == "pure" { model.is_pure() } else { bit };
         v.insert(format!("flag.{n}"), val.to_string());
     }
-    let pure = model.is_pure();
     v.insert("balance.long".into(), model.state.other.long_token_balance.to_string());
-    v.insert("balance.short".into(), (if pure { model.state.other.long_token_balance } else { model.state.other.short_token_balance }).to_string());
+    v.insert("balance.short".into(), model.state.other.short_token_balance.to_string());
     v.insert("trade_count".into(), model.state.other.trade_count.to_string());
     v.insert("max_pool_value_for_deposit.long".into(), res(model.max_pool_value_for_deposit(true)));
     v.insert("max_pool_value_for_deposit.short".into(), res(model.max_pool_value_for_deposit(false)));
@@ -254,7 +256,7 @@ fn plausible_market(rng: &mut Rng, now: i64) -> sdk::Market {
     if pure { flags |= 1 << 1; }
     for bit in 2..6 { if rng.chance(1, 2) { flags |= 1 << bit; } }
     m.flags.value = flags;
-    m.config.flag.value = rng.below(16) as u8;
+    m.config.flag.value = rng.below(16) as _;
     m.meta.market_token_mint = key(rng);
     m.meta.index_token_mint = key(rng);
     m.meta.long_token_mint = key(rng);
@@ -293,6 +295,16 @@ fn plausible_market(rng: &mut Rng, now: i64) -> sdk::Market {
         ps.pool.is_pure = 0;
         ps.pool.short_token_amount = rng.below(1_000_000_000) as u128;
     }
+    if rng.chance(2, 3) {
+        // no open positions: no pnl, no pending borrowing fees -> liquidity actions go through
+        let p = &mut m.state.pools;
+        for ps in [&mut p.open_interest_for_long, &mut p.open_interest_for_short, &mut p.open_interest_in_tokens_for_long,
+            &mut p.open_interest_in_tokens_for_short, &mut p.collateral_sum_for_long, &mut p.collateral_sum_for_short,
+            &mut p.total_borrowing, &mut p.borrowing_factor] {
+            ps.pool.long_token_amount = 0;
+            ps.pool.short_token_amount = 0;
+        }
+    }
     if rng.chance(1, 4) {
         m.state.pools.primary.pool.long_token_amount = 0;
         m.state.pools.primary.pool.short_token_amount = 0;
@@ -325,7 +337,7 @@ impl ProgModel {
                 pools.insert(kind, p);
             }
         }
-        let pid_clock = m.clock(gmsol_store::states::market::ClockKind::PriceImpactDistribution).unwrap_or(0);
+        let pid_clock = m.clock(gmsol_model::ClockKind::PriceImpactDistribution).unwrap_or(0);
         Self { m, pools, supply: supply as u128, pid_clock }
     }
     fn p(&self, k: PoolKind) -> gmsol_model::Result<&prog::market::pool::Pool> {
@@ -468,7 +480,10 @@ fn actions(sink: &mut Sink, rng: &mut Rng, m: &sdk::Market, supply: u64, class: 
     let mut sm = MarketModel::from_parts(Arc::new(*m), supply);
     let n = 1 + rng.below(4);
     for step in 0..n {
-        let amt = |rng: &mut Rng| if rng.chance(1, 6) { 0 } else { rng.below(10u64.pow(3 + rng.below(9) as u32)) as u128 };
+        let amt = |rng: &mut Rng| {
+            let e = 3 + rng.below(9) as u32;
+            if rng.chance(1, 6) { 0 } else { rng.below(10u64.pow(e)) as u128 }
+        };
         let a = match rng.below(6) {
             0 | 1 => Act::Deposit(amt(rng), amt(rng)),
             2 => Act::Withdraw(amt(rng).min(supply as u128)),
@@ -487,10 +502,13 @@ fn actions(sink: &mut Sink, rng: &mut Rng, m: &sdk::Market, supply: u64, class: 
 }
 
 macro_rules! size_pair {
-    ($p:ident, $s:ident, $name:ident) => {{
-        $p.insert(format!("size.{}", stringify!($name)), std::mem::size_of::<prog::$name>().to_string());
+    ($p:ident, $s:ident, $name:ident) => {
+        size_pair!($p, $s, $name, prog::$name)
+    };
+    ($p:ident, $s:ident, $name:ident, $pt:ty) => {{
+        $p.insert(format!("size.{}", stringify!($name)), std::mem::size_of::<$pt>().to_string());
         $s.insert(format!("size.{}", stringify!($name)), std::mem::size_of::<sdk::$name>().to_string());
-        $p.insert(format!("align.{}", stringify!($name)), std::mem::align_of::<prog::$name>().to_string());
+        $p.insert(format!("align.{}", stringify!($name)), std::mem::align_of::<$pt>().to_string());
         $s.insert(format!("align.{}", stringify!($name)), std::mem::align_of::<sdk::$name>().to_string());
     }};
 }
@@ -513,11 +531,9 @@ fn layout(sink: &mut Sink) {
     size_pair!(p, s, PriceFeed);
     size_pair!(p, s, UserHeader);
     size_pair!(p, s, TokenMapHeader);
-    size_pair!(p, s, GtExchange);
-    size_pair!(p, s, GtExchangeVault);
-    size_pair!(p, s, TradeData);
-    size_pair!(p, s, VirtualInventory);
-    size_pair!(p, s, MarketConfigBuffer);
+    size_pair!(p, s, GtExchange, prog::gt::GtExchange);
+    size_pair!(p, s, GtExchangeVault, prog::gt::GtExchangeVault);
+    size_pair!(p, s, VirtualInventory, prog::market::virtual_inventory::VirtualInventory);
     emit(sink, "layout", "sizes", "sizes", &p, &s);
     // offsets inside Market: program side = address of what the public getter returns, SDK side = offset_of!
     let (mut p, mut s) = (View::new(), View::new());
